@@ -313,16 +313,26 @@ def percentile_precondition(ctx, rule='C08-R2'):
     pct = [e for e in fx.deep_events(q) if e.kind == 'call' and call_head(e) in (
         'numpy.percentile', 'numpy.nanpercentile', 'numpy.quantile')]
     ctx.floor(rule, 'percentile call in calc_base_height', len(pct), 1)
+    from sa.rules.common import nonempty_arg
     for e in pct:
         a = e.call[2][0]
-        ok = any(tag(l) == 'cmp' and l[1] in ('ne', 'lt', 'le') and T.contains(
-            l, lambda x: x == ('call', ('g', 'builtins.len'), (a,), ())) for l in guard_literals(e.guard))
+        ok = any(nonempty_arg(l) == a for l in guard_literals(e.guard))
         ctx.check(ok, rule, q, e.node, e.loc(),
-                  'the percentile is taken without the empty-selection refusal (AmpycloudError) dominating it',
+                  'the percentile is taken without the empty-selection refusal (AmpycloudError) dominating it '
+                  '(the guard in front of it does not say "the selection is not empty")',
                   instance='calc_base_height: empty selection refused before the percentile')
     raises = [e for e in fx.deep_events(q) if e.kind == 'raise']
     ctx.check(bool(raises), rule, q, 'calc_base_height', p.funcs[q].loc(),
               'empty look-back selection is not refused', instance='calc_base_height: raises on empty')
+    # ... and nothing else is refused: a selection with one or more values has a base height
+    from sa.rules.typestate import _own_condition
+    all_evs = fx.deep_events(q)
+    for r in raises:
+        own = _own_condition(r, all_evs)
+        ctx.check(own is not None and nonempty_arg(T.mk_not(own)) is not None, rule, q, r.node, r.loc(),
+                  f'calc_base_height refuses under {T.show(r.guard, maxlen=120)}: only an empty selection may be refused '
+                  '(a layer made of a single hit has a base height)',
+                  instance='calc_base_height: only the empty selection is refused')
 
 
 def okta_is_python_int(ctx, rule='C08-R2'):
